@@ -1272,7 +1272,7 @@ impl Prop for C18 {
                 max_len: 1200,
                 seed,
                 seeds: seed_documents(seed),
-                max_time: 1500,
+                max_time: 600,
             },
             ev,
         );
